@@ -184,6 +184,12 @@ func VerifH_C14_Deviations() {
 		{"type string;", "deviate replace { units 'v'; }", "", false, true},
 		{"type string;", "deviate delete { units 'u'; }", "", false, true},
 		{"type string; units 'u';", "deviate delete { units 'other'; }", "", false, true},
+		// a property that may occur several times: the one named is deleted / added
+		{"type string; must 'true()'; must 'false()';", "deviate delete { must 'false()'; }", "type string; must 'true()';", false, false},
+		{"type string; must 'true()'; must 'false()';", "deviate delete { must 'true()'; }", "type string; must 'false()';", false, false},
+		{"type string; must 'true()'; must 'false()';", "deviate delete { must 'true()'; must 'false()'; }", "type string;", false, false},
+		{"type string; must 'true()';", "deviate add { must 'false()'; }", "type string; must 'true()'; must 'false()';", false, false},
+		{"type string; must 'true()';", "deviate delete { must 'false()'; }", "", false, true},
 	}
 	k := vrt.Choice("deviation", len(devs))
 	d := devs[k]
